@@ -32,6 +32,14 @@ thread knows after reading such a state; a write that carries `v` can only take 
 with the same claimRef (`Inv.rvU`), in every world -/
 def SeenRv (s : St) (n : Name) (v : Nat) : Prop := ∃ x, some x ∈ s.xhist n ∧ x.rv = v ∧ ¬ x.foreignTo s.me
 
+/-- some state the name `n` ever had since the start was absent, unbound or bound to this claim: what a thread
+knows after ANY read of the name that passed the bound check (or answered NotFound), in every world -/
+def SeenNF (s : St) (n : Name) : Prop := ∃ ox ∈ s.xhist n, ∀ x, ox = some x → ¬ x.foreignTo s.me
+
+/-- what the reconcile knows about the name before an UNCONDITIONAL request: in a world without other claims'
+controllers the XR is not foreign NOW; in every world it was not foreign in SOME state of the name -/
+def NF (s : St) (n : Name) : Prop := ¬ foreignAt s n ∧ SeenNF s n
+
 /-- XR `n` exists and its claimRef is exactly this claim's reference -/
 def boundAt (s : St) (n : Name) : Prop := ∃ x, s.xrs n = some x ∧ x.cref = some s.me
 
@@ -85,6 +93,13 @@ theorem Fut.seen {s s' : St} (h : Fut s s') {n : Name} {v : Nat} (hs : SeenRv s 
   obtain ⟨x, hx, hv, hnf⟩ := hs
   exact ⟨x, h.xh n _ hx, hv, by rw [h.me]; exact hnf⟩
 
+theorem Fut.seenNF {s s' : St} (h : Fut s s') {n : Name} (hs : SeenNF s n) : SeenNF s' n := by
+  obtain ⟨ox, hox, hnf⟩ := hs
+  exact ⟨ox, h.xh n _ hox, by rw [h.me]; exact hnf⟩
+
+theorem Fut.nf {s s' : St} (h : Fut s s') {n : Name} (hs : NF s n) : NF s' n :=
+  ⟨h.notForeign n hs.1, h.seenNF hs.2⟩
+
 theorem Fut.acked {s s' : St} (h : Fut s s') {n : Name} (ha : acked s n) : acked s' n := by
   obtain ⟨v, hv, hr⟩ := ha
   exact ⟨v, h.hist v hv, hr⟩
@@ -95,11 +110,11 @@ def G (s : St) : Req → Prop
   | .getXR _ _ => True
   | .updClaimStatus _ => True
   | .updClaim c => ∃ v ∈ s.hist, v.rv = c.rv ∧ refExt v c
-  | .upgradeXR n rv _ => ¬ foreignAt s n ∧ SeenRv s n rv
-  | .deleteXR n _ => ¬ foreignAt s n
+  | .upgradeXR n rv _ => (¬ foreignAt s n ∧ SeenRv s n rv) ∧ acked s n
+  | .deleteXR n _ => NF s n ∧ acked s n
   | .createXR n _ cref => acked s n ∧ cref = s.me
-  | .patchXR n rv cref => ((acked s n ∧ ¬ foreignAt s n) ∧ cref = s.me) ∧ ∀ v, rv = some v → SeenRv s n v
-  | .applyXR n cref => (acked s n ∧ ¬ foreignAt s n) ∧ cref = s.me
+  | .patchXR n rv cref => ((acked s n ∧ NF s n) ∧ cref = s.me) ∧ ∀ v, rv = some v → SeenRv s n v
+  | .applyXR n cref => (acked s n ∧ NF s n) ∧ cref = s.me
 
 /-! ### history lemmas -/
 
@@ -148,6 +163,10 @@ theorem not_foreign_of_hist {P0 : Name → Prop} {s : St} (hi : Inv P0 s) {n : N
   intro hf
   obtain ⟨x, hx, hc⟩ := hi.xfor n hf ox hox
   exact h x hx hc
+
+theorem nf_of_hist {P0 : Name → Prop} {s : St} (hi : Inv P0 s) {n : Name} {ox : Option XR}
+    (hox : ox ∈ s.xhist n) (h : ∀ x, ox = some x → ¬ x.foreignTo s.me) : NF s n :=
+  ⟨not_foreign_of_hist hi hox h, ox, hox, h⟩
 
 /-! ### primitives preserve the invariant -/
 
@@ -549,10 +568,10 @@ theorem exec_inv_fut {P0 : Name → Prop} {s : St} (hi : Inv P0 s) (r : Req) (hg
         · rename_i hrv
           have hrv : rv = x.rv := by simpa using hrv
           have hb : x.cref = some s.me → acked s n := fun h => hi.bound n ⟨x, hx, h⟩
-          refine ⟨inv_emit (inv_putXR hi n x hb (fun hp h => ⟨hp, x, hx, h⟩)) _ (fun m h => by cases h) (fun m r h => by cases h)
+          refine ⟨inv_emit (inv_putXR hi n { x with mf := (applyUpDec valid x.mf).getD x.mf } hb (fun hp h => ⟨hp, x, hx, h⟩)) _ (fun m h => by cases h) (fun m r h => by cases h)
               (fun m r h => ?_) (fun m h => by cases h),
-            (fut_putXR s n x (fun hp h => ⟨hp, x, hx, h⟩)).trans (fut_emit _ _)⟩
-          exact was_me_of_seen hi hx (hrv ▸ hg.2) r (Ev.xrWriteG.inj h).2
+            (fut_putXR s n { x with mf := (applyUpDec valid x.mf).getD x.mf } (fun hp h => ⟨hp, x, hx, h⟩)).trans (fut_emit _ _)⟩
+          exact was_me_of_seen hi hx (hrv ▸ hg.1.2) r (Ev.xrWriteG.inj h).2
   | deleteXR n fg =>
     simp only [exec]
     split
@@ -565,7 +584,7 @@ theorem exec_inv_fut {P0 : Name → Prop} {s : St} (hi : Inv P0 s) (r : Req) (hg
         h2.trans (fut_emit _ _)⟩
       rw [h3]
       rw [h4] at hp
-      exact was_me_of_not hx hg r (Ev.xrWrite.inj h).2 hp
+      exact was_me_of_not hx hg.1.1 r (Ev.xrWrite.inj h).2 hp
   | createXR n rvSet cref =>
     simp only [exec]
     split
@@ -575,9 +594,9 @@ theorem exec_inv_fut {P0 : Name → Prop} {s : St} (hi : Inv P0 s) (r : Req) (hg
       · exact ⟨hi, Fut.refl s⟩
       · obtain ⟨hack, hme⟩ := hg
         subst hme
-        refine ⟨inv_emit (inv_putXR hi n (newXR s.me) (fun _ => hack) (fun _ h => absurd h (not_foreignTo_of_cref rfl))) _ ?_
+        refine ⟨inv_emit (inv_putXR hi n (newXR s.me csaManager) (fun _ => hack) (fun _ h => absurd h (not_foreignTo_of_cref rfl))) _ ?_
             (fun m r h => by cases h) (fun m r h => by cases h) (fun m h => by cases h),
-          (fut_putXR s n (newXR s.me) (fun _ h => absurd h (not_foreignTo_of_cref rfl))).trans (fut_emit _ _)⟩
+          (fut_putXR s n (newXR s.me csaManager) (fun _ h => absurd h (not_foreignTo_of_cref rfl))).trans (fut_emit _ _)⟩
         intro m hm
         cases hm
         exact hi.ackd n hack
@@ -594,7 +613,7 @@ theorem exec_inv_fut {P0 : Name → Prop} {s : St} (hi : Inv P0 s) (r : Req) (hg
       | none =>
         simp only [Option.isSome_none, Bool.false_eq_true, if_false]
         exact ⟨inv_emit hinv _ (fun m h => by cases h)
-            (fun m r h hp => was_me_of_not hx hnfa r (Ev.xrWrite.inj h).2 hp) (fun m r h => by cases h) (fun m h => by cases h),
+            (fun m r h hp => was_me_of_not hx hnfa.1 r (Ev.xrWrite.inj h).2 hp) (fun m r h => by cases h) (fun m h => by cases h),
           hfut.trans (fut_emit _ _)⟩
       | some v =>
         simp only [Option.isSome_some, if_true]
@@ -610,9 +629,9 @@ theorem exec_inv_fut {P0 : Name → Prop} {s : St} (hi : Inv P0 s) (r : Req) (hg
     obtain ⟨⟨hack, hnfa⟩, hme⟩ := hg
     subst hme
     split
-    · refine ⟨inv_emit (inv_putXR hi n (newXR s.me) (fun _ => hack) (fun _ h => absurd h (not_foreignTo_of_cref rfl))) _ ?_
+    · refine ⟨inv_emit (inv_putXR hi n (newXR s.me ssaManager) (fun _ => hack) (fun _ h => absurd h (not_foreignTo_of_cref rfl))) _ ?_
           (fun m r h => by cases h) (fun m r h => by cases h) (fun m h => by cases h),
-        (fut_putXR s n (newXR s.me) (fun _ h => absurd h (not_foreignTo_of_cref rfl))).trans (fut_emit _ _)⟩
+        (fut_putXR s n (newXR s.me ssaManager) (fun _ h => absurd h (not_foreignTo_of_cref rfl))).trans (fut_emit _ _)⟩
       intro m hm
       cases hm
       exact hi.ackd n hack
@@ -620,7 +639,7 @@ theorem exec_inv_fut {P0 : Name → Prop} {s : St} (hi : Inv P0 s) (r : Req) (hg
       refine ⟨inv_emit (inv_putXR hi n (applyBindXR s.me x) (fun _ => hack) (fun _ h => absurd h (not_foreignTo_of_cref rfl))) _ (fun m h => by cases h)
           (fun m r h hp => ?_) (fun m r h => by cases h) (fun m h => by cases h),
         (fut_putXR s n (applyBindXR s.me x) (fun _ h => absurd h (not_foreignTo_of_cref rfl))).trans (fut_emit _ _)⟩
-      exact was_me_of_not hx hnfa r (Ev.xrWrite.inj h).2 hp
+      exact was_me_of_not hx hnfa.1 r (Ev.xrWrite.inj h).2 hp
 
 /-! ### environment steps -/
 
